@@ -51,6 +51,17 @@ def variants_of(prog, rng, tier):
             k += 1
         w = rewrites.wrap_in_function(prog, p, n)
         out.append(("wrap-in-function", w, {}))
+    if not rewrites.has_annotations(prog):
+        k = 0
+        for p, n, b, cx in eps:
+            if cx not in ("expr", "rhs") or n["k"] in ("var", "prim", "lit"):
+                continue
+            q = rewrites.abstract_subterm(prog, p, n, b, rng)
+            if q is not None:
+                out.append(("abstract-subterm", q, {}))
+                k += 1
+                if k >= (2 if tier == "quick" else 5):
+                    break
     q = rewrites.inline_let(prog)
     if q is not None:
         out.append(("inline-let", q, {}))
@@ -93,10 +104,18 @@ def run(tier):
         # written in place there is no separate use site: the in-place form is the base only for use = none
         if c["ind"] in ("direct", "let", "idfn", "implet", "impfn"):
             groups.setdefault(("annots", c["pos"], c["shape"], c["use"]), []).append(c)
+    # recursive instantiations (functions whose body holds a rec depending on the parameter, applied several times) and
+    # random composite programs are subjects of the rewrites too
+    import gen
+    rr = run_tlc("DenMC", "Prog_recinst.cfg", workers=4, timeout=900, java_opts=["-Xss512m"])
+    chk.add_tlc(rr)
+    extra = [{"prog": c["prog"], "pos": "recinst", "shape": str(i), "ind": "direct"} for i, c in enumerate(rr.cases)]
+    comp = gen.programs(common.seed() * 1000 + 5, 120 if tier == "quick" else 1500, p_bad=0.0)
+    extra += [{"prog": p, "pos": "composite", "shape": str(i), "ind": "direct"} for i, p in enumerate(comp)]
     nsel = 120 if tier == "quick" else 1200
     sel = members if len(members) <= nsel else rng.sample(members, nsel)
     nann = 60 if tier == "quick" else 600
-    sel = sel + (annots if len(annots) <= nann else rng.sample(annots, nann))
+    sel = sel + (annots if len(annots) <= nann else rng.sample(annots, nann)) + extra
     cases = []
     meta = []
     for c in sel:
@@ -151,7 +170,7 @@ def run(tier):
     chk.cov["distinct_nontrivial"] = len(sel) + len(groups)
     chk.notes["pairs_per_rewrite"] = per_rewrite
     chk.cov["rule"] = ("accepted members of the PosShape/FnPos families (a seeded sample) x rewrites {3 trivia styles, 2 permutations, consistent renaming, parenthesise all / "
-                       "one, name-with-let, wrap-in-function, inline-let, move-to-module} + for every (position, shape) the let / identity-function / imported variants "
+                       "one, name-with-let, wrap-in-function, abstract-subterm (beta-expansion), inline-let, move-to-module}; the same on the RecInst family and on seeded random composite programs (those the compiler accepts) + for every (position, shape) the let / identity-function / imported variants "
                        "against the direct one; evaluations = (original, rewritten) pairs compiled and compared; non-trivial = distinct originals")
     if cases:
         chk.sample({"original": cases[0]["files"], "rewritten_example": cases[min(5, len(cases) - 1)]["files"]})
